@@ -768,6 +768,26 @@ class Builder:
                 continue
             if isinstance(base, ast.Name) and base.id in _visiting:
                 continue
+            if isinstance(base, ast.Name) and base.id in self.sc.params and not self.sc.defs.get(base.id) and self.env and base.id in self.env and _depth < 3:
+                # the keys were handed to this (spliced) helper: judged where the collection was built
+                caller, arg, cenv = self.env[base.id]
+                recv_ok = True
+                if self.sc.selfname is not None and ctxt.startswith(self.sc.selfname + "."):
+                    sarg = self.env.get(self.sc.selfname)
+                    recv_ok = sarg is not None and isinstance(sarg[1], ast.Name) and sarg[1].id == self.an.scope(caller).selfname
+                if isinstance(arg, ast.Name) and recv_ok:
+                    frame = self._frame()
+                    self.f, self.sc, self.env = caller, self.an.scope(caller), cenv
+                    try:
+                        cont2 = container
+                        if self.sc.selfname is not None and frame[1].selfname is not None and self.sc.selfname != frame[1].selfname:
+                            cont2 = ast.parse(ctxt.replace(frame[1].selfname + ".", self.sc.selfname + ".", 1), mode="eval").body
+                        fake = ast.For(target=ast.Name(id="__k", ctx=ast.Store()), iter=arg, body=[], orelse=[])
+                        ok2 = self._keys_of(cont2, arg, _depth + 1, _visiting)
+                    finally:
+                        self._restore(frame)
+                    if ok2:
+                        continue
             if isinstance(base, ast.Name) and base.id in self.sc.defs and base.id not in self.sc.params:
                 # a local list fed only by append(<key of the same container>)
                 _visiting = _visiting | {base.id}
@@ -787,6 +807,25 @@ class Builder:
                     continue
             return False
         return bool(self.sc.defs.get(key.id))
+
+    def _keys_of(self, container: ast.AST, coll: ast.Name, _depth: int, _visiting) -> bool:
+        """the local collection `coll` of the current frame holds only keys of `container` (it is a fresh list / set fed only by
+        append / add of such keys)"""
+        if coll.id not in self.sc.defs or coll.id in self.sc.params:
+            return False
+        _visiting = (_visiting or set()) | {coll.id}
+        ok, found = True, False
+        for node in self.sc._own_nodes():
+            if isinstance(node, ast.Call) and isinstance(node.func, ast.Attribute) and isinstance(node.func.value, ast.Name) and node.func.value.id == coll.id:
+                if node.func.attr in ("append", "add") and len(node.args) == 1 and self._key_known_present(container, node.args[0], _depth + 1, _visiting):
+                    found = True
+                elif node.func.attr in ("append", "extend", "insert", "add", "update"):
+                    ok = False
+        for h2 in self.sc.defs[coll.id]:
+            v = h2[1] if h2[0] == "assign" else (h2[2] if h2[0] == "ann" else None)
+            if not (isinstance(v, (ast.List, ast.Set)) and not v.elts or (isinstance(v, ast.Call) and isinstance(v.func, ast.Name) and v.func.id in ("list", "set") and not v.args)):
+                ok = False
+        return ok and found
 
     # ------------------------------------------------------------- inlining
     def _frame(self):
@@ -1347,6 +1386,11 @@ class Builder:
                     syn = ast.copy_location(ast.Call(func=e.args[0], args=list(e.args[1:]) + list(call.args), keywords=list(e.keywords) + list(call.keywords)), call)
                     self.an.partial_syn[key] = syn
                     self.an.partial_frame[key] = (f, env)
+                    self.an.syn_by_call.setdefault(id(call), []).append(syn)
+                    self.an.syn_callee[id(syn)] = sc.callee(syn)
+                    if f is not self.f or env is not self.env:
+                        for x_ in list(e.args[1:]) + [k_.value for k_ in e.keywords]:
+                            self.an.syn_arg_frame[id(x_)] = (f, env)
                 return sc.callee(syn)
         return None
 
